@@ -288,6 +288,14 @@ for pat, what in [
         die("jcmarker.c: %s no longer has the modelled form" % what)
 # F18 fix (if present): emit_dqt checks the table number before indexing quant_tbl_ptrs[]
 consts["DQT_INDEX_CHECK"] = 1 if re.search(r"if \(index < 0 \|\| index >= NUM_QUANT_TBLS\)\s*ERREXIT1\(cinfo, JERR_NO_QUANT_TABLE, index\);", jcmk) else 0
+# the statistics pass must clear sent_table of every table it generates (regen_ok of the marker model)
+if not re.search(r"htbl->sent_table = FALSE;\s*\}\s*(?:/\*.*?\*/\s*)*(?:METHODDEF|LOCAL|GLOBAL|#)", jchuff, re.S) and \
+   not re.search(r"jpeg_gen_optimal_table\(.*?htbl->sent_table = FALSE;", jchuff, re.S):
+    die("jchuff.c: jpeg_gen_optimal_table no longer clears htbl->sent_table")
+# F19 fix: start_pass_huff checks the table numbers before forming &entropy->xx_derived_tbls[tbl] on both paths
+m = re.search(r"actbl = compptr->ac_tbl_no;\s*if \(dctbl < 0 \|\| dctbl >= NUM_HUFF_TBLS\)\s*ERREXIT1\(cinfo, JERR_NO_HUFF_TABLE, dctbl\);\s*"
+              r"if \(actbl < 0 \|\| actbl >= NUM_HUFF_TBLS\)\s*ERREXIT1\(cinfo, JERR_NO_HUFF_TABLE, actbl\);\s*if \(gather_statistics\)", jchuff)
+consts["HUFF_TBLNO_CHECK_FIRST"] = 1 if m else 0
 # std tables the correspondence needs (jcparam.c, jstdhuff.c)
 def c_array(src, name, fname):
     mm = re.search(r"%s\[[^\]]*\]\s*=\s*\{([^}]*)\}" % name, src)
@@ -447,7 +455,7 @@ for k in ["DCTSIZE", "DCTSIZE2", "MAX_COMPONENTS", "MAX_COMPS_IN_SCAN", "C_MAX_B
           "MAX_COEF_BITS_ADD", "DC_EXTRA_BITS", "AHAL_PREC", "MAX_AH_AL_HI", "MAX_AH_AL_LO", "LOSSLESS_PREC_MIN", "LOSSLESS_PREC_MAX",
           "LOSSY_PREC_A", "LOSSY_PREC_B", "RESTART_MAX", "PSV_MIN", "PSV_MAX", "QUANT_MIN", "QUANT_MAX", "QUANT_BASELINE_MAX",
           "QUALITY_MIN", "QUALITY_MAX", "SP_YCC_NCOMPS", "SP_YCC_NSCANS", "SP_BIG_MUL", "SP_ADD", "SP_MUL", "SP_SIZE_RULE",
-          "SP_ALLOC_GUARD", "SP_MIN_SLOTS", "DRI_RULE", "RAW_ADVANCE", "DQT_INDEX_CHECK", "DIVISOR_CLAMP", "DIVISOR_CLAMPED_EVERYWHERE", "ZERO_QUANT_REJECTED",
+          "SP_ALLOC_GUARD", "SP_MIN_SLOTS", "DRI_RULE", "RAW_ADVANCE", "DQT_INDEX_CHECK", "HUFF_TBLNO_CHECK_FIRST", "DIVISOR_CLAMP", "DIVISOR_CLAMPED_EVERYWHERE", "ZERO_QUANT_REJECTED",
           "NCOMP_CHECK_IN_VALIDATE", "REVALIDATE_AFTER_LOSSLESS", "MISSING_CODE_CHECK", "MISSING_ZRL_EOB_CHECK", "SIMD_RANGE_PRECHECK", "RESTART_CLAMP_DIRECT", "TJ_NUMSAMP", "TJ_NUMCS"]:
     out.append("Definition g_%s : Z := %d." % (k, consts[k]))
 out.append("\n(* zigzag order of encode_one_block: position 0 and the 63 kloop() arguments *)")
